@@ -324,6 +324,22 @@ static void flush_bitpack(carquet_rle_encoder_t* enc) {
     enc->bitpack_total = 0;
 }
 
+/*
+ * A bit-packed group always decodes to 8 values, so a partially filled group may
+ * only be zero-padded at the very end of the stream. Before a pending run is
+ * emitted, top the open group up with values taken from that run.
+ */
+static void complete_partial_group(carquet_rle_encoder_t* enc) {
+    if (enc->repeat_count < 8 || enc->bitpack_count == 0) return;
+
+    while (enc->bitpack_count < 8) {
+        enc->bitpack_buffer[enc->bitpack_count++] = enc->prev_value;
+        enc->bitpack_total++;
+        enc->repeat_count--;
+    }
+    flush_bitpack(enc);
+}
+
 void carquet_rle_encoder_init(
     carquet_rle_encoder_t* enc,
     carquet_buffer_t* buffer,
@@ -356,6 +372,7 @@ carquet_status_t carquet_rle_encoder_put(
     }
 
     /* Value changed */
+    complete_partial_group(enc);
     if (enc->repeat_count >= 8) {
         /* Flush as RLE */
         flush_bitpack(enc);  /* Flush any pending bit-pack */
@@ -395,6 +412,7 @@ carquet_status_t carquet_rle_encoder_flush(carquet_rle_encoder_t* enc) {
         return enc->status;
     }
 
+    complete_partial_group(enc);
     if (enc->repeat_count >= 8) {
         flush_bitpack(enc);
         flush_rle(enc);
